@@ -299,12 +299,13 @@ def list_sort(inner_sort):
 class Kind:
     """how a z3 term is wrapped into a value: ('int', cls) ('bool') ('real') ('bytes') ('str') ('obj', cls) ('fn')
     ('enum', cls) ('box': any value, kept in a side table) ('seq', inner Kind: a list value)"""
-    __slots__ = ('ty', 'cls', 'inner')
+    __slots__ = ('ty', 'cls', 'inner', 'truthy')
 
     def __init__(self, ty, cls=None, inner=None):
         self.ty = ty
         self.cls = cls
         self.inner = inner
+        self.truthy = None      # custom kinds: fn(term) -> z3 Bool, the truthiness of an element
 
     def sort(self):
         if self.ty == 'seq':
